@@ -440,6 +440,14 @@ def block_matrix_family(r, b, n, fam):
             e = set((i, j) for i in range(n) for j in range(i) if r.random() < dens)
             return [sorted(set([i] + [j for j in range(n) if (i, j) in e or (j, i) in e])) for i in range(n)]
         return [sorted(set([i] + [j for j in range(n) if r.random() < dens])) for i in range(n)]   # structurally non-symmetric
+    if fam == "bmmat":
+        # block M-matrix: graph of a scalar SPD M-matrix, off-diagonal blocks entry-wise <= 0, diagonal blocks dominant
+        rows0 = gen.spd_mmatrix(r, n)
+        rows = [[(c, [[(-abs(x) if c != i else x) for x in rw_] for rw_ in rblock(r, b, r.choice(["gen", "sparse", "upper", "lower"]))])
+                 for c, _ in rw] for i, rw in enumerate(rows0)]
+        rows = b_dominate(r, b, rows)
+        return [[(c, ([[abs(x) if p_ == q_ else x for q_, x in enumerate(rw_)] for p_, rw_ in enumerate(B)] if c == i else B))
+                 for c, B in rw] for i, rw in enumerate(rows)]
     if fam == "bkron":
         # commuting blocks (scalar M-matrix (x) I_b): the only block family of amgcl's own test-suite
         rows0 = gen.spd_mmatrix(r, n)
@@ -447,7 +455,7 @@ def block_matrix_family(r, b, n, fam):
     rows = [[(c, rblock(r, b)) for c in cs] for cs in pat()]
     return b_dominate(r, b, rows)
 
-BFAMS = ["btridiag", "btridiag", "barrow", "barrow_last", "bpattern", "bpattern", "bsympat", "bdense", "bupper", "blower", "bkron"]
+BFAMS = ["btridiag", "btridiag", "barrow", "barrow_last", "bpattern", "bpattern", "bsympat", "bdense", "bupper", "blower", "bkron", "bmmat"]
 
 def noncommuting_fraction(r, mats, b_of):
     """fraction of non-commuting pairs among sampled pairs of stored blocks of one matrix"""
@@ -635,6 +643,18 @@ def block_run(ctx, lines):
             fails.append(dict(kind="counterexample", case=l, impl=a, model=m_, op=op, size=len(l), env=env,
                               theorem="correspondence drv_relax_block (%s, static_matrix<Q,b,b>) vs Relax.v/Ilu.v/Cheby.v at BlockInst.BlockS" % op))
     ctx["log"].append(("C06 block skipped (ilut tie / unsupported)", skipped))
+    # a second thread count for the omp-parallel setup loops (spai0, diagonal, Gershgorin reduction, symb_product, vmul/residual)
+    sub = [l for l in dom if l.split(" ", 2)[1] in ("b.spai0", "b.jacobi", "b.cheby", "b.ilup", "b.gersh", "b.spai0_m", "b.ilup_factors", "b.jacobi_dia")][::3]
+    if sub:
+        env3 = {"OMP_NUM_THREADS": "3"}
+        impl3 = ctx["run_driver"](ctx["cpp"]["relax_block"], sub, env_extra=env3, shards=8)
+        for l in sub:
+            cid, op = l.split(" ", 2)[:2]
+            ctx["stats"]["evaluations"] += 1
+            if impl3.get(cid) != model.get(cid):
+                ctx["stats"]["mismatches"] += 1
+                fails.append(dict(kind="counterexample", case=l, impl=impl3.get(cid), model=model.get(cid), op=op, size=len(l), env=env3,
+                                  theorem="correspondence drv_relax_block (%s, OMP_NUM_THREADS=3) vs model at BlockInst.BlockS" % op))
     if BSTAT: ctx["log"].append(("C06 block generators: sampled block pairs / non-commuting / all-scalar / all-diagonal / all-symmetric",
                                  "%(pairs)d / %(noncommuting)d / %(all_blocks_scalar)s / %(all_blocks_diagonal)s / %(all_blocks_symmetric)s" % BSTAT))
     ol, th, case_of = block_oracles(dom, impl)
@@ -807,12 +827,13 @@ def classify(fail):
             # some row whose own upper entries exactly fill int(lenU*p) places, none left for the diagonal
             hit = tau == 0 and any(lu >= 1 and int(lu * p) == lu for lu in lenU)
             return {"site": "ilut", "diag_counted_in_u_budget": hit}
-        if len(sp) < 3 or sp[1] != "iluk_factors" or not fail.get("oracle"): return {}
-        if fail["oracle"].get("op") != "o_lu_pattern": return {}
+        if len(sp) < 3 or sp[1] not in ("iluk_factors", "b.iluk_factors") or not fail.get("oracle"): return {}
+        if fail["oracle"].get("op") not in ("o_lu_pattern", "b.o_lu_pattern"): return {}
         res = fail["oracle"].get("result") or ""
         if not res.startswith("FAIL "): return {}
         i, j = int(res.split()[1]), int(res.split()[2])
-        d = parse_case(case)
+        # the level bookkeeping of iluk.hpp is purely structural: the same replay serves block-valued matrices
+        d = parse_bcase(case) if sp[1].startswith("b.") else parse_case(case)
         k = int(d["params"][0]); rows = d["A"][2]
         return {"site": "iluk", "re_admitted_after_drop": (i, j) in iluk_readmitted(rows, k)}
     except Exception:
